@@ -80,16 +80,16 @@ theorem step_consts {y : SysS} (h : CInvS y) (op : Op) (hok : OpOKS y op) :
           ⟨_, _, _, _, _, _, _, _, _, _, he⟩ | ⟨_, _, _, _, _, _, _, _, _, _, hsa, _, _, _, he⟩ |
           ⟨_, _, _, _, _, _, _, _, _, hsa, _, _, _, he⟩
       · rw [he]
-      · rw [he]
+      · obtain ⟨_, _, _, _, he⟩ := he; rw [he]
       · rw [he]
       · rw [he]; exact hsa
-      · rw [he]; exact hsa
+      · obtain ⟨_, _, _, _, he⟩ := he; rw [he]; exact hsa
     | error t =>
       obtain ⟨_, st', _, _, _, hc⟩ := stepCS_error_shape h t
       rcases hc with ⟨_, he⟩ | ⟨_, _, _, _, _, _, hsa, _, _, _, he⟩
       · rw [he]
       · rw [he]; exact hsa
-    | complete t r v => rw [stepCS_complete h t r v hok]
+    | complete t r v => obtain ⟨_, _, _, _, _, he⟩ := stepCS_complete h t r v hok; rw [he]
     | remove t => rfl
     | takeRemovable => rfl
 
@@ -130,7 +130,10 @@ theorem step_obs_source {y : SysS} (h : CInvS y) (op : Op) (hok : OpOKS y op) (t
         ⟨_, _, x, _, _, _, _, _, hv, _, he⟩ | ⟨_, sl, _, x, _, hr, hv, _, _, _, _, _, _, _, he⟩ |
         ⟨_, _, _, _, _, _, _, _, _, _, _, _, _, he⟩
     · rw [he] at hc; exact Or.inl hc
-    · rw [he] at hc; exact Or.inl hc
+    · obtain ⟨st2, _, e2, _, he⟩ := he
+      rw [he] at hc
+      change obsAt st2 t r = some c at hc
+      rw [obsAt_congr e2] at hc; exact Or.inl hc
     · rw [he] at hc
       subst hv
       rcases key t0 r0 x hc with h1 | ⟨rfl, rfl, h3⟩
@@ -141,7 +144,10 @@ theorem step_obs_source {y : SysS} (h : CInvS y) (op : Op) (hok : OpOKS y op) (t
       rcases key t0 sl.level x hc with h1 | ⟨rfl, rfl, h3⟩
       · exact Or.inl h1
       · exact Or.inr ⟨x, rfl, h3⟩
-    · rw [he] at hc; exact Or.inl hc
+    · obtain ⟨st2, _, e2, _, he⟩ := he
+      rw [he] at hc
+      change obsAt st2 t r = some c at hc
+      rw [obsAt_congr e2] at hc; exact Or.inl hc
   | error t0 =>
     obtain ⟨_, st', _, hobs, _, hcs⟩ := stepCS_error_shape h t0
     rcases hcs with ⟨_, he⟩ | ⟨_, _, _, _, _, _, _, _, _, _, he⟩
@@ -151,7 +157,11 @@ theorem step_obs_source {y : SysS} (h : CInvS y) (op : Op) (hok : OpOKS y op) (t
     · rw [he] at hc
       change obsAt st' t r = some c at hc
       rw [obsAt_congr hobs] at hc; exact Or.inl hc
-  | complete t0 r0 v => rw [stepCS_complete h t0 r0 v hok] at hc; exact Or.inl hc
+  | complete t0 r0 v =>
+    obtain ⟨st2, _, e2, _, _, he⟩ := stepCS_complete h t0 r0 v hok
+    rw [he] at hc
+    change obsAt st2 t r = some c at hc
+    rw [obsAt_congr e2] at hc; exact Or.inl hc
   | remove t0 => exact Or.inl hc
   | takeRemovable => exact Or.inl hc
 
@@ -228,6 +238,7 @@ theorem result_end_no_pending {y : SysS} (h : CInvS y) (t r : Nat) (v : Metric) 
     change alookup t s2.pending = none
     rw [hp']; exact alookup_adel_self _ _ h.inv.keys
   · apply no_pending_of_not_running hinv'
+    obtain ⟨_, _, _, _, he⟩ := he
     rw [he]
     change alookup t s2.pending = none
     rw [hp']; exact alookup_adel_self _ _ h.inv.keys
